@@ -2820,7 +2820,7 @@ async fn perform_binding_check(
             .await
             {
                 Ok(Ok(parsed)) => {
-                    if parsed.class == StunClass::SuccessResponse {
+                    if parsed.class == StunClass::SuccessResponse && parsed.transaction_id == tx_id {
                         return Ok(());
                     }
                     return Err(anyhow!("TCP binding check failed: unexpected response"));
@@ -4333,6 +4333,13 @@ impl IceGatherer {
             return Ok(None);
         }
         let parsed = StunMessage::decode(&buf[..len])?;
+        // Honour only the Binding success response to this probe's own transaction.
+        if parsed.transaction_id != tx_id
+            || parsed.class != StunClass::SuccessResponse
+            || parsed.method != StunMethod::Binding
+        {
+            return Ok(None);
+        }
         if let Some(mapped) = parsed.xor_mapped_address {
             let socket = Arc::new(socket);
             self.sockets.lock().push(socket.clone());
